@@ -23,7 +23,9 @@ import (
 
 // LStep kinds: 0 call(key), 1 release(idx-th parked caller), 2 finish(key, ttl ms), 3 advance(adv ms),
 // 4 burst(key, n, ttl): n callers call Run(key) at the same moment, nobody parked, runner not gated
-// (the Go scheduler picks the interleaving).
+// (the Go scheduler picks the interleaving),
+// 5 pair(key): two callers call Run(key); both are held before the slow path (scheduling point
+// "limiter.beforeSlowPath") until both have done the lookup, then go on one after the other.
 type LStep struct {
 	K   int `json:"k"`
 	Key int `json:"key,omitempty"`
@@ -49,11 +51,16 @@ func genL(t *rapid.T) LCase {
 	gcMs := int(dedup.TaskGCInterval / time.Millisecond)
 	ttls := []int{0, 1000, 30000, gcMs + 30000, 5 * gcMs}
 	advs := []int{500, 1000, 2000, 30000 + 1000, gcMs + 1000, 2*gcMs + 1000, 6 * gcMs}
+	// One case in four starts with two callers that both miss the lookup of input 0, run the
+	// task once and both return, so that the tail works on a task two callers have left.
+	if rapid.IntRange(0, 3).Draw(t, "pair_prefix") == 0 {
+		c.Steps = append(c.Steps, LStep{K: 5}, LStep{K: 1}, LStep{K: 2, TTL: rapid.SampledFrom([]int{0, 1000}).Draw(t, "pair_ttl")}, LStep{K: 1})
+	}
 	n := rapid.IntRange(3, 28).Draw(t, "nsteps")
 	for i := 0; i < n; i++ {
-		s := LStep{K: rapid.SampledFrom([]int{0, 0, 0, 0, 1, 1, 1, 1, 2, 2, 2, 3, 3, 3, 4}).Draw(t, "k")}
+		s := LStep{K: rapid.SampledFrom([]int{0, 0, 0, 0, 1, 1, 1, 1, 2, 2, 2, 3, 3, 3, 4, 5}).Draw(t, "k")}
 		switch s.K {
-		case 0:
+		case 0, 5:
 			s.Key = rapid.IntRange(0, c.Keys-1).Draw(t, "key")
 		case 1:
 			s.Idx = rapid.IntRange(0, lMaxParked-1).Draw(t, "idx")
@@ -139,6 +146,8 @@ type lH struct {
 	now int64
 
 	arrivals chan chan struct{}
+	slowArr  chan chan struct{} // callers held before the slow path (pair step)
+	holdSlow int32
 	entered  chan *lEntry
 	results  chan lResult
 	inflight [4]int32
@@ -161,6 +170,16 @@ type lH struct {
 
 func (h *lH) yield(point string, input interface{}) {
 	if atomic.LoadInt32(&h.tearing) != 0 || atomic.LoadInt32(&h.pass) != 0 {
+		return
+	}
+	if point == "limiter.beforeSlowPath" {
+		// A caller that missed the lookup is held here only during a "pair" step.
+		if atomic.LoadInt32(&h.holdSlow) == 0 {
+			return
+		}
+		g := make(chan struct{})
+		h.slowArr <- g
+		<-g
 		return
 	}
 	g := make(chan struct{})
@@ -226,6 +245,26 @@ func (h *lH) call(key int) *pbt.Verdict {
 			h.cls["gc-ran"] = true
 		}
 	}
+	c := h.launch(key)
+	g, r, e, kind := h.next(true)
+	switch {
+	case kind != "":
+		v := stall(kind, "Limiter: Run did not get past the task lookup", c.gid)
+		return &v
+	case e != nil:
+		return h.unexpectedEntry(e, "its caller has not been released from the scheduling point yet")
+	case r != nil:
+		// Run returned without passing the scheduling point: only possible if the
+		// hook is missing from the build.
+		return &pbt.Verdict{Violation: fmt.Sprintf("harness: Limiter.Run returned %v without reaching the limiter.afterLookup scheduling point (hook missing?)", r.out), NonTrivial: true}
+	}
+	c.gate = g
+	h.parked = append(h.parked, c)
+	return nil
+}
+
+// launch starts a caller of Run(key) on its own goroutine.
+func (h *lH) launch(key int) *lCaller {
 	c := &lCaller{id: len(h.callers), key: key, since: h.now}
 	h.callers = append(h.callers, c)
 	ready := make(chan struct{})
@@ -246,20 +285,83 @@ func (h *lH) call(key int) *pbt.Verdict {
 		h.results <- lResult{c, out}
 	}()
 	<-ready
-	g, r, e, kind := h.next(true)
-	switch {
-	case kind != "":
-		v := stall(kind, "Limiter: Run did not get past the task lookup", c.gid)
-		return &v
-	case e != nil:
-		return h.unexpectedEntry(e, "its caller has not been released from the scheduling point yet")
-	case r != nil:
-		// Run returned without passing the scheduling point: only possible if the
-		// hook is missing from the build.
-		return &pbt.Verdict{Violation: fmt.Sprintf("harness: Limiter.Run returned %v without reaching the limiter.afterLookup scheduling point (hook missing?)", r.out), NonTrivial: true}
+	return c
+}
+
+// pair lets two callers call Run(key) such that both have finished the read-locked
+// lookup before either enters the slow path: if the input has no task yet, both missed
+// it, one creates the task and the other finds it under the write lock. Afterwards both
+// are parked at limiter.afterLookup like any other caller.
+func (h *lH) pair(key int) *pbt.Verdict {
+	if len(h.callers)+2 > lMaxCallers || len(h.parked)+2 > lMaxParked {
+		h.cls["skip-call-cap"] = true
+		return nil
 	}
-	c.gate = g
-	h.parked = append(h.parked, c)
+	if h.now-h.lastGC > int64(dedup.TaskGCInterval/time.Millisecond) {
+		h.lastGC = h.now
+		if len(h.parked) > 0 {
+			h.cls["gc-ran-while-caller-parked"] = true
+		} else {
+			h.cls["gc-ran"] = true
+		}
+	}
+	atomic.StoreInt32(&h.holdSlow, 1)
+	type held struct {
+		c    *lCaller
+		slow chan struct{}
+	}
+	var hs []held
+	for i := 0; i < 2; i++ {
+		c := h.launch(key)
+		var d *dog
+		var got bool
+		for !got {
+			select {
+			case g := <-h.slowArr:
+				hs = append(hs, held{c, g})
+				got = true
+			case g := <-h.arrivals:
+				// the input already has a task: the caller went the fast path
+				c.gate = g
+				h.parked = append(h.parked, c)
+				got = true
+			case e := <-h.entered:
+				atomic.StoreInt32(&h.holdSlow, 0)
+				return h.unexpectedEntry(e, "its caller has not been released from the scheduling point yet")
+			case r := <-h.results:
+				atomic.StoreInt32(&h.holdSlow, 0)
+				return &pbt.Verdict{Violation: fmt.Sprintf("harness: Limiter.Run returned %v without reaching a scheduling point (hook missing?)", r.out), NonTrivial: true}
+			case <-time.After(dogTick):
+				if d == nil {
+					d = newDog()
+				}
+				if k := d.tick(); k != "" {
+					atomic.StoreInt32(&h.holdSlow, 0)
+					v := stall(k, "Limiter: Run did not get past the task lookup", c.gid)
+					return &v
+				}
+			}
+		}
+	}
+	atomic.StoreInt32(&h.holdSlow, 0)
+	if len(hs) == 2 {
+		h.cls["two-callers-both-missed-the-lookup"] = true
+	}
+	for _, x := range hs {
+		close(x.slow)
+		g, r, e, kind := h.next(true)
+		switch {
+		case kind != "":
+			v := stall(kind, "Limiter: Run did not get past the slow path", x.c.gid)
+			return &v
+		case e != nil:
+			return h.unexpectedEntry(e, "its caller has not been released from the scheduling point yet")
+		case r != nil:
+			return &pbt.Verdict{Violation: fmt.Sprintf("harness: Limiter.Run returned %v without reaching the limiter.afterLookup scheduling point (hook missing?)", r.out), NonTrivial: true}
+		}
+		x.c.gate = g
+		h.parked = append(h.parked, x.c)
+	}
 	return nil
 }
 
@@ -581,6 +683,8 @@ func (h *lH) teardown() {
 			select {
 			case g := <-h.arrivals:
 				close(g)
+			case g := <-h.slowArr:
+				close(g)
 			case e := <-h.entered:
 				e.release <- lOut{nil, 0}
 			case <-h.results:
@@ -620,7 +724,7 @@ func runL(c LCase) pbt.Verdict {
 	}
 	h := &lH{
 		clk:      clock.NewMock(),
-		arrivals: make(chan chan struct{}, 64), entered: make(chan *lEntry, 64), results: make(chan lResult, 64),
+		arrivals: make(chan chan struct{}, 64), slowArr: make(chan chan struct{}, 64), entered: make(chan *lEntry, 64), results: make(chan lResult, 64),
 		cls: map[string]bool{},
 	}
 	for i := 0; i < c.Keys; i++ {
@@ -653,6 +757,11 @@ func runL(c LCase) pbt.Verdict {
 				continue
 			}
 			v = h.advance(s.Adv)
+		case 5:
+			if s.Key < 0 || s.Key >= c.Keys {
+				continue
+			}
+			v = h.pair(s.Key)
 		case 4:
 			if s.Key < 0 || s.Key >= c.Keys || s.TTL < 0 {
 				continue
